@@ -1578,6 +1578,8 @@ func runC07(c *vf.Ctx) {
 			}
 		}
 	})
+	// model tie: the jsonutils Decoder model against the implementation (class, panic verdict, text)
+	runC07Tie(c)
 	c07TotMu.Lock()
 	c.Set("calls_under_recover", c07TotCalls)
 	c.Set("errors_rendered", c07TotRendered)
